@@ -124,7 +124,7 @@ def toM7 : Reply → Option Redis.Reply
   | .one .nil => some .nil
   | .one (.int i) => some (.int i)
   | .one (.bulk b) => some (.bulk b)
-  | .one (.err _) => none
+  | .one (.err c) => if c = errWrongType then some (.err .wrongType) else none
   | .many l => some (.arr (l.map elemOf))
   | .keys l => some (.arr (l.map Redis.Elem.key))
   | .scan _ _ => none
